@@ -284,3 +284,101 @@ func EncryptInPlace(el *etree.Element, e EncSpec) *etree.Element {
 }
 
 var _ = crypto.SHA1
+
+// DecryptEA is the harness's own XML-Enc decryptor (written from the XML-Enc text): given an
+// EncryptedAssertion element and the recipient key name it returns the plaintext, or nil if
+// the element cannot be decrypted. It is used by oracles to know what an attacker-made
+// EncryptedAssertion contains; it is deliberately lenient about what it accepts.
+func DecryptEA(ea *etree.Element, keyName string) []byte {
+	find := func(el *etree.Element, tag string) *etree.Element {
+		for _, c := range el.ChildElements() {
+			if c.Tag == tag {
+				return c
+			}
+		}
+		return nil
+	}
+	ed := find(ea, "EncryptedData")
+	if ed == nil {
+		return nil
+	}
+	em := find(ed, "EncryptionMethod")
+	cd := find(ed, "CipherData")
+	if em == nil || cd == nil || find(cd, "CipherValue") == nil {
+		return nil
+	}
+	dataAlg := em.SelectAttrValue("Algorithm", "")
+	ct, err := base64.StdEncoding.DecodeString(find(cd, "CipherValue").Text())
+	if err != nil {
+		return nil
+	}
+	var ek *etree.Element
+	if ki := find(ed, "KeyInfo"); ki != nil {
+		ek = find(ki, "EncryptedKey")
+	}
+	if ek == nil {
+		ek = find(ea, "EncryptedKey")
+	}
+	if ek == nil {
+		return nil
+	}
+	kem := find(ek, "EncryptionMethod")
+	kcd := find(ek, "CipherData")
+	if kem == nil || kcd == nil || find(kcd, "CipherValue") == nil {
+		return nil
+	}
+	wrapped, err := base64.StdEncoding.DecodeString(find(kcd, "CipherValue").Text())
+	if err != nil {
+		return nil
+	}
+	priv := world.RSAKey(keyName)
+	var sym []byte
+	switch kem.SelectAttrValue("Algorithm", "") {
+	case OAEPMGF1P, OAEP11:
+		var h hash.Hash = sha1.New()
+		if dm := find(kem, "DigestMethod"); dm != nil {
+			switch dm.SelectAttrValue("Algorithm", "") {
+			case EncDigSHA256:
+				h = sha256.New()
+			case EncDigSHA512:
+				h = sha512.New()
+			}
+		}
+		sym, err = rsa.DecryptOAEP(h, nil, priv, wrapped, nil)
+	case RSA15:
+		sym, err = rsa.DecryptPKCS1v15(nil, priv, wrapped)
+	default:
+		return nil
+	}
+	if err != nil {
+		return nil
+	}
+	blk, err := aes.NewCipher(sym)
+	if err != nil {
+		return nil
+	}
+	switch dataAlg {
+	case AES128GCM, AES192GCM, AES256GCM:
+		g, _ := cipher.NewGCM(blk)
+		if len(ct) < 12+16 {
+			return nil
+		}
+		pt, err := g.Open(nil, ct[:12], ct[12:], nil)
+		if err != nil {
+			return nil
+		}
+		return pt
+	case AES128CBC, AES256CBC:
+		if len(ct) < 32 || len(ct)%16 != 0 {
+			return nil
+		}
+		out := make([]byte, len(ct)-16)
+		cipher.NewCBCDecrypter(blk, ct[:16]).CryptBlocks(out, ct[16:])
+		n := int(out[len(out)-1])
+		if n < 1 || n > 16 || n > len(out) {
+			return nil
+		}
+		return out[:len(out)-n]
+	}
+	return nil
+}
